@@ -699,10 +699,7 @@ def as_report(v):
 def m_clone(ctx):
     ex, st = ctx.ex, ctx.st
     v = ex.deref_val(st, ctx.args[0])
-    if ex.resolve_fn(ctx.callee, len(ctx.args)) and isinstance(v, Obj) and v.kind is None and not v.attrs.get('opaque'):
-        # derived Clone on a crate-local struct: structural copy is exactly what derive does
-        return [(None, ex.copy_val(v))]
-    return [(None, ex.copy_val(v))]
+    return [(None, ex.copy_val(v))]      # structural copy (what derive(Clone) does; hand-written Clone impls are assumed to do the same)
 
 
 @model(r'^<.+ as (Deref|DerefMut|AsRef<.+>|AsMut<.+>|Borrow<.+>|BorrowMut<.+>)>::(deref|deref_mut|as_ref|as_mut|borrow|borrow_mut)$')
@@ -718,6 +715,11 @@ def m_deref(ctx):
             return [(None, inner)]
         return [(None, Ref(('field', v, ('in', 0, '?'))))]
     return [(None, r)]
+
+
+@model(r'^(core::hint::|std::hint::)?must_use::<')
+def m_must_use(ctx):
+    return [(None, ctx.args[0])]
 
 
 @model(r'^std::mem::(take|replace|swap|drop|forget)::<|^core::mem::(take|replace|swap|drop|forget)::<|^drop::<')
